@@ -187,7 +187,7 @@ func runScenario(s scenario, w *rec.W) {
 		o.mu.Lock()
 		o.current = k + 1
 		o.mu.Unlock()
-		dcD.SetDeadline(time.Now().Add(5 * time.Second))
+		dcD.SetDeadline(time.Now().Add(12 * time.Second))
 		if err := authgrants.WriteIntentRequest(dcD, intents[k]); err != nil && s.Sc[k].GT != "pf" {
 			answers[k] = append(answers[k], "writefail:"+err.Error())
 			break
@@ -200,7 +200,7 @@ func runScenario(s scenario, w *rec.W) {
 			if n == 0 && gone {
 				dcD.SetReadDeadline(time.Now().Add(300 * time.Millisecond)) // nobody is expected to answer any more
 			} else if n == 0 {
-				dcD.SetReadDeadline(time.Now().Add(5 * time.Second))
+				dcD.SetReadDeadline(time.Now().Add(12 * time.Second))
 			} else {
 				dcD.SetReadDeadline(time.Now().Add(15 * time.Millisecond))
 			}
@@ -244,7 +244,16 @@ type bufHalf struct {
 	buf    bytes.Buffer
 	closed bool
 }
-type bufConn struct{ r, w *bufHalf }
+type bufConn struct {
+	r, w *bufHalf
+	dl   time.Time // read deadline (guarded by r.mu)
+}
+
+type timeoutErr struct{}
+
+func (timeoutErr) Error() string   { return "i/o timeout" }
+func (timeoutErr) Timeout() bool   { return true }
+func (timeoutErr) Temporary() bool { return true }
 
 func bufPipe() (net.Conn, net.Conn) {
 	a, b := &bufHalf{}, &bufHalf{}
@@ -257,6 +266,9 @@ func (c *bufConn) Read(p []byte) (int, error) {
 	for c.r.buf.Len() == 0 {
 		if c.r.closed {
 			return 0, io.EOF
+		}
+		if !c.dl.IsZero() && !time.Now().Before(c.dl) {
+			return 0, timeoutErr{}
 		}
 		c.r.cond.Wait()
 	}
@@ -281,10 +293,23 @@ func (c *bufConn) Close() error {
 	}
 	return nil
 }
-func (c *bufConn) LocalAddr() net.Addr                { return nil }
-func (c *bufConn) RemoteAddr() net.Addr               { return nil }
-func (c *bufConn) SetDeadline(t time.Time) error      { return nil }
-func (c *bufConn) SetReadDeadline(t time.Time) error  { return nil }
+func (c *bufConn) LocalAddr() net.Addr           { return nil }
+func (c *bufConn) RemoteAddr() net.Addr          { return nil }
+func (c *bufConn) SetDeadline(t time.Time) error { return c.SetReadDeadline(t) }
+func (c *bufConn) SetReadDeadline(t time.Time) error {
+	c.r.mu.Lock()
+	c.dl = t
+	c.r.cond.Broadcast()
+	c.r.mu.Unlock()
+	if !t.IsZero() {
+		time.AfterFunc(time.Until(t)+time.Millisecond, func() {
+			c.r.mu.Lock()
+			c.r.cond.Broadcast()
+			c.r.mu.Unlock()
+		})
+	}
+	return nil
+}
 func (c *bufConn) SetWriteDeadline(t time.Time) error { return nil }
 
 var pki *hopkit.PKI
@@ -373,6 +398,9 @@ func relay(o *obs, s scenario, pc net.Conn, url string) {
 		if _, err := a.ReadFrom(io.TeeReader(tP, &rawA)); err != nil {
 			pc.Close()
 			return
+		}
+		if cur.TBeh == "slowconfirm" {
+			time.Sleep(5600 * time.Millisecond) // the answer is on its way for seconds
 		}
 		if _, err := pc.Write(rawA.Bytes()); err != nil {
 			return
